@@ -46,7 +46,11 @@ func makeSys(c string, j Job) Sys {
 			return &ListSys[string]{Kind: c, U: strU(u), Absent: "zz", Poison: "POISON", N: n,
 				Cmps: map[string]func(a, b string) int{"nat": strCmp("nat"), "rev": strCmp("rev"), "coarse": strCmp("coarse")}}
 		}
-		return intListSys(c, n, u)
+		ls := intListSys(c, n, u)
+		if j.p("jsonops", 0) == 1 {
+			ls.JSONTexts = []string{`[]`, `null`, `[null]`, `[1,null]`, `[null,null,1]`}
+		}
+		return ls
 	case "hashset", "linkedhashset", "treeset":
 		if deep && c == "linkedhashset" {
 			return &SetSys[Val]{Kind: c, CmpN: "nat", Absent: -5, Poison: -99, Cmp: func(a, b Val) int { return int(a - b) }, N: n,
@@ -76,10 +80,14 @@ func makeSys(c string, j Job) Sys {
 		if str {
 			return &SeqSys[string]{Kind: c, Cap: j.p("cap", 3), N: n, Poison: "POISON", U: strU(u)}
 		}
-		return &SeqSys[int]{Kind: c, Cap: j.p("cap", 3), N: n, Poison: -99, U: intU(u)}
+		ss := &SeqSys[int]{Kind: c, Cap: j.p("cap", 3), N: n, Poison: -99, U: intU(u)}
+		if j.p("jsonops", 0) == 1 {
+			ss.JSONTexts = []string{`[]`, `null`, `[null]`, `[1,null]`, `[null,null,1]`}
+		}
+		return ss
 	case "priorityqueue", "binaryheap":
-		if deep { // one priority, one id: the state is (length, capacity); sizes past every threshold
-			return heSysIDs(c, hc, n, 1, 0, 1)
+		if deep { // one priority, every element with its own fresh identity: the state is (length, capacity)
+			return hxSys(c, hc, n, 1, 0)
 		}
 		if str {
 			return scalarHeapSys[string](c, hc, n, strU(u), "POISON", j.p("jsonlen", 2))
